@@ -105,6 +105,50 @@ func propC08(r *Run) {
 				r.Count("fault:power-loss")
 			})
 		}
+		// the same three-way rule when one system call of the execution reports an I/O error first
+		// and the crash comes later: whatever the call does about the error (give up, clean up,
+		// try again), no crash point after it may show anything but old / new / (add) nothing
+		if !sc.otherDev && sc.nops > 0 && r.Choose("io-error-then-crash", 3) == 0 {
+			ke := r.Choose("io-error-at", sc.nops)
+			if es := errnosFor[sc.kinds[ke]]; len(es) > 0 {
+				e := es[r.Choose("io-error-kind", len(es))]
+				r.Count("fault:" + e.Error())
+				for j := 0; j < 12; j++ {
+					f := sc.pre.Clone()
+					f.KeepLog = false
+					kc := ke + 1 + j
+					f.Plan = func(seq int, kind, real string) *simfs.Fault {
+						if seq == ke {
+							return &simfs.Fault{Errno: e}
+						}
+						if seq == kc {
+							return &simfs.Fault{Crash: true}
+						}
+						return nil
+					}
+					w.use(f)
+					err, crashed := w.runOp(op)
+					what := fmt.Sprintf("%s injected into op %d/%d (%s), crash before the %d. operation after it", e, ke, sc.nops, sc.kinds[ke], j+1)
+					if !crashed {
+						what = fmt.Sprintf("%s injected into op %d/%d (%s), call returned %v, crash right after", e, ke, sc.nops, sc.kinds[ke], err)
+						f.Frozen = true
+					}
+					points++
+					r.Count("fault:crash")
+					cls := w.recovery(f.KillImage(), what+", process-kill image", op, sc.preSnap, preCheckOK, oldContent, hadOld, oldAux, oldPW, allowed)
+					classes["kill-after-error:"+cls.String()]++
+					w.powerLossImages(f, limit/2, func(img *simfs.FS, desc string) {
+						cls := w.recovery(img, what+", power-loss image ["+desc+"]", op, sc.preSnap, preCheckOK, oldContent, hadOld, oldAux, oldPW, allowed)
+						classes["power-after-error:"+cls.String()]++
+						r.Count("fault:power-loss")
+					})
+					if !crashed {
+						break
+					}
+				}
+				r.Count("probe:io-error-then-crash")
+			}
+		}
 		// concurrent readers in another process, interleaved at single file-system operations
 		w.readerClause(sc, hadOld, oldPW)
 		r.Add("crash-points", points)
